@@ -370,6 +370,8 @@ F_hslot(t) ==  \* helping.rs:312 slot.swap(ptr, SeqCst)    (confirm_helping: lis
   /\ UNCHANGED hp
 F_conf(t) ==   \* helping.rs:317 control.swap(IDLE, SeqCst)
   /\ PC(t) = "F_conf"
+  \* (seeded model bug "wait_for_help", negative control of Termination: the reader insists on being helped)
+  /\ (Bug = "wait_for_help" => sh.ctrl[MY(t)] # GenV(L(t).gen))
   /\ sh' = [sh EXCEPT !.ctrl[MY(t)] = IDLE]
   /\ LET cv == sh.ctrl[MY(t)] IN
      IF cv = GenV(L(t).gen) THEN Set(t, Step1([L(t) EXCEPT !.pc = "F_inc"])) /\ NoEmit
@@ -718,6 +720,12 @@ Next ==
 
 Spec == Init /\ [][Next]_vars
 
+\* Every operation of every thread terminates if every thread keeps being scheduled (no deadlock, no livelock of the
+\* design under weak fairness; programs are finite, so a failed exchange means somebody else's succeeded).  Checked by
+\* TLC as a temporal property on the small configurations (MC_live_*); lock-freedom proper is SoloProgress.
+StepT(t) == (solo = 0 \/ solo = t) /\ err = "" /\ Step(t) /\ UNCHANGED solo /\ hist' = HistUpd(t)
+FairSpec == Spec /\ \A t \in Threads : WF_vars(StepT(t))
+
 (* ====================================================================== *)
 (* Invariants                                                              *)
 (* ====================================================================== *)
@@ -766,4 +774,5 @@ TypeOK == /\ \A n \in Nodes : sh.wr[n] >= 0
           /\ sh.nnodes \in 0..MaxNodes
 
 AllDone == \A t \in Threads : ~HasOp(t) /\ th[t].pc = "idle"
+Termination == <>(AllDone \/ err # "")
 =============================================================================
